@@ -11,7 +11,8 @@
 
 Transportation1dSorter::Transportation1dSorter(
     const std::vector<long long> &u, const std::vector<long long> &v,
-    const std::vector<long long> &s, const std::vector<long long> &d) {
+    const std::vector<long long> &s, const std::vector<long long> &d)
+    : nbSources_(u.size()) {
   // Sort the sources and sinks
   std::vector<std::pair<long long, long long>> srcSort;
   srcSort.reserve(u.size());
@@ -71,8 +72,10 @@ Transportation1dSorter::Solution Transportation1dSorter::convertSolutionBack(
 
 std::vector<int> Transportation1dSorter::convertAssignmentBack(
     const std::vector<int> &a) const {
-  std::vector<int> ret;
-  ret.resize(a.size());
+  // One entry per source of the original problem; empty sources, which are
+  // not part of the sorted problem, go to the first non-empty sink
+  int defaultSink = snkOrder.empty() ? 0 : snkOrder.front();
+  std::vector<int> ret(nbSources_, defaultSink);
   for (size_t i = 0; i < a.size(); ++i) {
     ret[srcOrder[i]] = snkOrder[a[i]];
   }
